@@ -237,7 +237,9 @@ BLOCK_LINES = ["ls -l", "x = 42", "echo $PATH", 'export PATH="yo:momma"', "pass"
 def gen_with(rnd):
     ctx = rnd.choice(["x", "ctx()", "a.b", "x as y", "open('f') as f"])
     if rnd.random() < 0.2:
-        rest = rnd.choice(["pass", "x = 42; y = 12", 'export PATH="yo:momma"; echo $PATH', "[1,\n    2,\n    3]", "ls -l | grep x", "f!(a, b)", "  spaced   out  "])
+        rest = rnd.choice(["pass", "x = 42; y = 12", 'export PATH="yo:momma"; echo $PATH', "[1,\n    2,\n    3]", "ls -l | grep x", "f!(a, b)", "  spaced   out  ",
+                           'a = """q\nw""" + 1', 'a = """q\nw"""', "print(f'''a\n{b}\n''', 2)", "s = '''x\n  y\n z''' ; t = 3", "g(a,\n  '''m\nn''',\n  b)", "x = 'a\\\nb' + c",
+                           'v = f"""{k}\n""" f"{j}"', "call((1,\n 2), '''t\nu'''\n)"])
         head = f"with! {ctx}:"
         stmt = head + " " + rest + "\n"
         follow = rnd.choice(FOLLOW + [""])
